@@ -17,6 +17,8 @@ import (
 	"path/filepath"
 	"sort"
 	"strings"
+	"syscall"
+	"time"
 )
 
 func vRealBuild(t *vTree) string {
@@ -122,13 +124,17 @@ const (
 	vOpReadDir
 )
 
-// the argument as the server's working directory sees it
-func vRel(p string) string {
-	r := strings.TrimPrefix(p, "/")
-	if r == "" {
-		r = "."
+// the argument re-rooted in the scratch directory: an absolute one becomes an
+// absolute path below it, a relative one stays relative to the server's working
+// directory (for package os: relative to the scratch directory, spelled out)
+func vRel(root, p string, forOS bool) string {
+	if p[0] == '/' || forOS {
+		if p[0] != '/' {
+			p = "/" + p
+		}
+		return root + p
 	}
-	return r
+	return p
 }
 
 func vRealRun(op int, label string) {
@@ -139,33 +145,36 @@ func vRealRun(op int, label string) {
 	c, closeAll := vRealClient(a)
 	defer closeAll()
 	model := t.clone()
-	rel := vRel(p)
+	if vSfx(p) != "" {
+		return // known finding F15: reported by the engine, nothing to validate here
+	}
+	rel, orel := vRel(a, p, false), vRel(b, p, true)
 	var cerr, oerr error
 	var mcat int
 	switch op {
 	case vOpMkdirAll:
 		cerr = c.MkdirAll(rel)
-		oerr = os.MkdirAll(b+"/"+rel, 0o755)
+		oerr = os.MkdirAll(orel, 0o755)
 		mcat = vCat(model.osMkdirAll(p))
 	case vOpRemoveAll:
-		_, lerr := os.Lstat(b + "/" + rel)
+		_, lerr := os.Lstat(orel)
 		cerr = c.RemoveAll(rel)
-		oerr = os.RemoveAll(b + "/" + rel)
+		oerr = os.RemoveAll(orel)
 		mcat = vCat(model.osRemoveAll(p))
 		if lerr != nil && oerr == nil {
 			oerr = lerr // documented difference: the client reports a missing path
 		}
 	case vOpRemove:
 		cerr = c.Remove(rel)
-		oerr = os.Remove(b + "/" + rel)
+		oerr = os.Remove(orel)
 		mcat = vCat(model.remove(p))
 	case vOpRmdir:
 		cerr = c.RemoveDirectory(rel)
-		oerr = os.Remove(b + "/" + rel)
+		oerr = os.Remove(orel)
 		mcat = vCat(model.remove(p))
 	case vOpReadDir:
 		got, err := c.ReadDir(rel)
-		want, werr := os.ReadDir(b + "/" + rel)
+		want, werr := os.ReadDir(orel)
 		cerr, oerr = err, werr
 		mnames, me := model.readdir(p)
 		mcat = vCat(me)
@@ -283,4 +292,71 @@ func vt_C05_open_roundtrip() {
 		os.RemoveAll(a)
 		os.RemoveAll(b)
 	}
+}
+
+// twin of vh_C05_client_setattr: the chosen call through the real Client +
+// Server on a scratch file, and package os on an identical one; mode, size,
+// modification time and owner of the two files are compared afterwards.
+func vt_C05_client_setattr() {
+	x := vSetattrChoice()
+	if x.size > 1<<20 {
+		x.size = 1 << 20 // keep the scratch files small
+	}
+	if os.Getuid() != 0 && (x.k == 1 || x.k == 5) {
+		vEmit("k", x.k)
+		return // changing the owner needs privileges
+	}
+	a, _ := os.MkdirTemp("", "verif-c05s-")
+	b, _ := os.MkdirTemp("", "verif-c05s-")
+	defer os.RemoveAll(a)
+	defer os.RemoveAll(b)
+	os.WriteFile(a+"/p", []byte("abc"), 0o644)
+	os.WriteFile(b+"/p", []byte("abc"), 0o644)
+	c, closeAll := vRealClient(a)
+	defer closeAll()
+	var cerr, oerr error
+	var cf *File
+	var of *os.File
+	if x.k >= 4 {
+		cf, cerr = c.OpenFile("p", os.O_RDWR)
+		of, oerr = os.OpenFile(b+"/p", os.O_RDWR, 0)
+		if cerr != nil || oerr != nil {
+			panic("open")
+		}
+		defer cf.Close()
+		defer of.Close()
+	}
+	switch x.k {
+	case 0:
+		cerr, oerr = c.Chmod("p", x.m), os.Chmod(b+"/p", x.m)
+	case 4:
+		cerr, oerr = cf.Chmod(x.m), of.Chmod(x.m)
+	case 1:
+		cerr, oerr = c.Chown("p", int(x.uid), int(x.gid)), os.Chown(b+"/p", int(x.uid), int(x.gid))
+	case 5:
+		cerr, oerr = cf.Chown(int(x.uid), int(x.gid)), of.Chown(int(x.uid), int(x.gid))
+	case 2:
+		cerr, oerr = c.Truncate("p", x.size), os.Truncate(b+"/p", x.size)
+	case 6:
+		cerr, oerr = cf.Truncate(x.size), of.Truncate(x.size)
+	case 3:
+		cerr, oerr = c.Chtimes("p", time.Unix(x.at, 0), time.Unix(x.mt, 0)), os.Chtimes(b+"/p", time.Unix(x.at, 0), time.Unix(x.mt, 0))
+	}
+	vAssert(vTCategory(cerr) == vRealCat(oerr), "setattr (real fs): same outcome category as package os"+vDbg(x, cerr, oerr))
+	fa, ea := os.Lstat(a + "/p")
+	fb, eb := os.Lstat(b + "/p")
+	if ea != nil || eb != nil {
+		panic("lstat")
+	}
+	vAssert(fa.Mode() == fb.Mode(), "setattr (real fs): same resulting mode as package os"+vDbg(x, fa.Mode(), fb.Mode()))
+	vAssert(fa.Size() == fb.Size(), "setattr (real fs): same resulting size as package os")
+	if x.k == 3 {
+		vAssert(fa.ModTime().Unix() == fb.ModTime().Unix(), "setattr (real fs): same resulting modification time as package os")
+	}
+	sa, oka := fa.Sys().(*syscall.Stat_t)
+	sb, okb := fb.Sys().(*syscall.Stat_t)
+	if oka && okb {
+		vAssert(sa.Uid == sb.Uid && sa.Gid == sb.Gid, "setattr (real fs): same resulting owner as package os")
+	}
+	vEmit("k", x.k)
 }
